@@ -318,11 +318,41 @@ def State.sentPacket (s : State) (env : Env) (t : Time) (pn largestAcked : PN) (
 
 /-! ### ReceivedAck -/
 
-/-- `wire.AckFrame.AcksPacket` (`ranges` in wire order: index 0 is the highest range). `sort.Search` is
-    rendered as "first range whose Smallest ≤ p", which it equals for ranges accepted by `validateAckRanges`. -/
+/-- what `wire.AckFrame.AcksPacket` computes on frames accepted by `validateAckRanges` (`ranges` in wire order:
+    index 0 is the highest range), as a linear search: "first range whose Smallest ≤ p".  Specification-level
+    rendering used by the property statements; the handler model calls `acksPacketBin`, the binary search of the
+    source, and Proofs/SentAcksBin proves the two equal on validated frames. -/
 def acksPacket (ranges : List Range) (lowest largest p : PN) : Bool :=
   if p < lowest ∨ p > largest then false
   else match ranges.find? (fun r => p ≥ r.1) with
+    | some r => p ≤ r.2
+    | none => false
+
+/-- Go `sort.Search(n, f)`: its loop `for i < j { h := int(uint(i+j) >> 1); if !f(h) { i = h + 1 } else { j = h } }`
+    with the iteration count as fuel -/
+def searchLoop (f : Nat → Bool) : Nat → Nat → Nat → Nat
+  | 0, i, _ => i
+  | fuel + 1, i, j =>
+    if i < j then
+      if !f ((i + j) / 2) then searchLoop f fuel ((i + j) / 2 + 1) j else searchLoop f fuel i ((i + j) / 2)
+    else i
+
+/-- `sort.Search(n, f)` (`j - i` shrinks in every iteration, so `n` iterations are enough) -/
+def sortSearch (n : Nat) (f : Nat → Bool) : Nat := searchLoop f n 0 n
+
+/-- the predicate `AcksPacket` hands to `sort.Search`: `p >= f.AckRanges[i].Smallest` -/
+def geSmallest (ranges : List Range) (p : PN) (i : Nat) : Bool :=
+  match ranges[i]? with
+  | some r => decide (p ≥ r.1)
+  | none => false
+
+/-- `wire.AckFrame.AcksPacket` as written: the range check, then `sort.Search` over the ranges and
+    `p <= f.AckRanges[i].Largest`.  `lowest` is `LowestAcked()` = the Smallest of the last range, so the index is
+    always in range (Proofs/SentAcksBin `acksPacketBin_index_in_range`, for every list of ranges) and the
+    `none` arm — where Go would panic with an index out of range — is unreachable. -/
+def acksPacketBin (ranges : List Range) (lowest largest p : PN) : Bool :=
+  if p < lowest ∨ p > largest then false
+  else match ranges[sortSearch ranges.length (geSmallest ranges p)]? with
     | some r => p ≤ r.2
     | none => false
 
@@ -487,7 +517,7 @@ def State.ackTail (s : State) (env : Env) (lvl : Level) (now : Time) (largest : 
 def State.ackCore (s : State) (env : Env) (ranges : List Range) (lvl : Level) (now : Time) (sp : Space)
     (lowest largest : PN) : State × Out :=
   if s.ackedBuf > 0 then (s, { res := .err .bugAckedNotEmpty })
-  else if lvl = .oneRTT ∧ sp.hist.skipped.any (acksPacket ranges lowest largest) then (s, { res := .err .ackSkipped })
+  else if lvl = .oneRTT ∧ sp.hist.skipped.any (acksPacketBin ranges lowest largest) then (s, { res := .err .ackSkipped })
   else
     match collect (ranges.length > 1) lowest largest sp.hist.first sp.hist.packets ranges.reverse sp.hist.probes [] [] with
     | .bug probes stash acc =>
@@ -551,25 +581,56 @@ def State.ptoFire (s : State) (env : Env) (now : Time) (nts : PN) (evs0 : List E
       else
         s.ptoSwitch (s.getPTOTimeAndSpace env now).2 nts evs0 disc0
 
-/-- `OnLossDetectionTimeout` after the path-probe check (`evs0`/`disc0`: what that check reported) -/
-def State.timeoutMain (s : State) (env : Env) (now : Time) (nts : PN) (evs0 : List Ev) (disc0 : List Frame) : State × Out :=
+/-- which guard the anti-deadlock branch of `OnLossDetectionTimeout` has in the current source (generated shape
+    fact, gofacts/x_sent.go): `true` since /repo 23a90f5 -/
+def antiDeadlockWhenArmed : Bool := Uquic.Gen.AckhandlerX.antiDeadlockWhenArmed
+
+/-- the guard of the anti-deadlock branch of `OnLossDetectionTimeout`.
+    `whenArmed = true` (since /repo 23a90f5): `!h.peerCompletedAddressValidation && (h.bytesInFlight == 0 ||
+    (!h.handshakeConfirmed && !h.hasOutstandingCryptoPackets()))` — the probe is due whenever `getPTOTimeAndSpace`
+    armed the timer for it; `whenArmed = false` (before): `h.bytesInFlight == 0 && !h.peerCompletedAddressValidation`. -/
+def State.antiDeadlockDue (s : State) (whenArmed : Bool) : Bool :=
+  if whenArmed then !s.peerCompleted && (s.bytesInFlight == 0 || (!s.handshakeConfirmed && !s.hasOutstandingCrypto))
+  else s.bytesInFlight == 0 && !s.peerCompleted
+
+/-- `h.ptoCount++; h.numProbesToSend++; if h.initialPackets != nil { … }` of `OnLossDetectionTimeout` -/
+def State.antiDeadlockProbe (s : State) (evs0 : List Ev) (disc0 : List Frame) : State × Out :=
+  let s := { s with ptoCount := s.ptoCount + 1, numProbesToSend := s.numProbesToSend + 1 }
+  if s.initial.isSome then ({ s with ptoMode := sendPTOInitial }, { evs := evs0, disc := disc0 })
+  else if s.handshake.isSome then ({ s with ptoMode := sendPTOHandshake }, { evs := evs0, disc := disc0 })
+  else (s, { res := .err .bugPTO, evs := evs0, disc := disc0 })
+
+/-- `OnLossDetectionTimeout` after the path-probe check (`evs0`/`disc0`: what that check reported), with the
+    anti-deadlock guard in the shape `whenArmed` -/
+def State.timeoutMainG (whenArmed : Bool) (s : State) (env : Env) (now : Time) (nts : PN) (evs0 : List Ev) (disc0 : List Frame) :
+    State × Out :=
   if s.getLossTimeAndSpace.1 ≠ 0 then
     -- Early retransmit or time loss detection
     let r := s.detectLostPackets env now s.getLossTimeAndSpace.2
     (r.1, { res := match r.2.2 with | some c => .panic c | none => .ok, evs := evs0 ++ r.2.1, disc := disc0 })
-  else if s.bytesInFlight = 0 ∧ !s.peerCompleted then
-    let s := { s with ptoCount := s.ptoCount + 1, numProbesToSend := s.numProbesToSend + 1 }
-    if s.initial.isSome then ({ s with ptoMode := sendPTOInitial }, { evs := evs0, disc := disc0 })
-    else if s.handshake.isSome then ({ s with ptoMode := sendPTOHandshake }, { evs := evs0, disc := disc0 })
-    else (s, { res := .err .bugPTO, evs := evs0, disc := disc0 })
+  else if s.antiDeadlockDue whenArmed then s.antiDeadlockProbe evs0 disc0
   else s.ptoFire env now nts evs0 disc0
 
 /-- body of `OnLossDetectionTimeout` (the deferred `setLossDetectionTimer` is added by the caller) -/
+def State.timeoutBodyG (whenArmed : Bool) (s : State) (env : Env) (now : Time) (nts : PN) : State × Out :=
+  let r := if s.handshakeConfirmed then detectLostPathProbes s.app now else (s.app, [], [])
+  ({ s with app := r.1 } : State).timeoutMainG whenArmed env now nts r.2.1 r.2.2
+
+/-- `OnLossDetectionTimeout` with the anti-deadlock guard in the shape `whenArmed` -/
+def State.onLossDetectionTimeoutG (whenArmed : Bool) (s : State) (env : Env) (now : Time) (nts : PN) : State × Out :=
+  let (s, out) := s.timeoutBodyG whenArmed env now nts
+  (s.setTimer env now, out)
+
+/-- `OnLossDetectionTimeout` after the path-probe check, as in the current source -/
+def State.timeoutMain (s : State) (env : Env) (now : Time) (nts : PN) (evs0 : List Ev) (disc0 : List Frame) : State × Out :=
+  s.timeoutMainG antiDeadlockWhenArmed env now nts evs0 disc0
+
+/-- body of `OnLossDetectionTimeout`, as in the current source -/
 def State.timeoutBody (s : State) (env : Env) (now : Time) (nts : PN) : State × Out :=
   let r := if s.handshakeConfirmed then detectLostPathProbes s.app now else (s.app, [], [])
   ({ s with app := r.1 } : State).timeoutMain env now nts r.2.1 r.2.2
 
-/-- `OnLossDetectionTimeout` -/
+/-- `OnLossDetectionTimeout` (the guard of its anti-deadlock branch as in the current source) -/
 def State.onLossDetectionTimeout (s : State) (env : Env) (now : Time) (nts : PN) : State × Out :=
   let (s, out) := s.timeoutBody env now nts
   (s.setTimer env now, out)
